@@ -35,7 +35,7 @@ def run(facts, tr, rep):
                 continue
             seen.add(b.def_)
             g = graph(b)
-            if any(c.def_ and c.def_.startswith("tokio::task::spawn::spawn") for c in g.calls()):
+            if any(c.name == "channel" and "mpsc" in (c.def_ or "") for c in g.calls()):
                 hb = b
             for c in g.calls():
                 for d in c.targets_def():
@@ -43,7 +43,7 @@ def run(facts, tr, rep):
                     if b2 is not None and b2.crate.name == CRATE:
                         stack += descendants(facts, b2)
     if hb is None:
-        rep.anchor_missing("hedge execution body (tokio::spawn sites reachable from Hedge::call)")
+        rep.anchor_missing("hedge execution body (the future that creates the result channel, reachable from Hedge::call)")
         return
     rep.saw(hb)
     g = graph(hb)
@@ -101,10 +101,26 @@ def run(facts, tr, rep):
                            % ("without the channel having closed (recv() == None)" if not closed else "while the function still holds its own sender"))
     rep.floor("C12.all-failed-sites", nfail, 1)
     # ------------------------------------------------------------ ATTEMPT bodies
-    spawns = [c for c in g.calls() if c.def_ and c.def_.startswith("tokio::task::spawn::spawn")]
+    # spawn sites: in the hedging future itself, or in a private synchronous helper it calls (then the site is the helper call)
+    spawns = []
+    spawn_impl = {}       # call in hb -> (body holding the real tokio::spawn, that Call, binding node or None)
+    for c in g.calls():
+        if c.def_ and c.def_.startswith("tokio::task::spawn::spawn"):
+            spawns.append(c)
+            spawn_impl[c.bb] = (hb, c, None)
+        else:
+            node = ("call", hb.crate.name, hb.def_, c.bb)
+            hlp = tr.local_sync_callee(node)
+            if hlp is not None and hlp.crate.name == CRATE:
+                hs = [x for x in graph(hlp).calls() if x.def_ and x.def_.startswith("tokio::task::spawn::spawn")]
+                if len(hs) == 1:
+                    spawns.append(c)
+                    spawn_impl[c.bb] = (hlp, hs[0], node)
+                    rep.saw(hlp)
     rep.floor("C12.spawn-sites", len(spawns), 3)
     for n, c in enumerate(spawns):
-        fut = peel(tr.expand(tr.operand(hb, c.args[0], c.loc)))
+        sbody, scall, bind = spawn_impl[c.bb]
+        fut = peel(tr.expand(tr.operand(sbody, scall.args[0], scall.loc)))
         if fut[0] != "agg":
             rep.ob("C12.ATTEMPT", skey(hb, "spawn#%d" % n), False, c.where(), "spawned future is not an async block of this function")
             continue
@@ -120,7 +136,11 @@ def run(facts, tr, rep):
         sends = [x for x in cg.calls() if x.name == "send" and "mpsc" in (x.def_ or "")]
         sent_ok = False
         for sd in sends:
-            tx = tr.expand(tr.operand(child, sd.args[0], sd.loc))
+            if bind is not None:
+                with tr.bound(sbody, bind):
+                    tx = tr.expand(tr.operand(child, sd.args[0], sd.loc), upvars=True)
+            else:
+                tx = tr.expand(tr.operand(child, sd.args[0], sd.loc))
             if from_channel(tx, 0):
                 sent_ok = True
         ok = len(ics) == 1 and not cg.in_cycle(ics[0].bb) and sent_ok
